@@ -328,6 +328,14 @@ impl SendSide {
                     self.pc = self.ops.len();
                     return TP::Done;
                 }
+                SendOp::Reset { code } if self.stream.is_none() && srv.is_some() => {
+                    // reset before any response was sent: through the SendResponse handle
+                    let sr = srv.as_deref_mut().unwrap();
+                    let sid = sr.stream_id().as_u32();
+                    sr.send_reset(code.into());
+                    let (ch, cl) = code_halves(code);
+                    api.ev("send_reset", sid, tag, "ok", json!({"ch": ch, "cl": cl}));
+                }
                 _ => {
                     // ops that need a SendStream
                     let st = match self.stream.as_mut() {
@@ -503,12 +511,13 @@ pub struct BodyReader {
     pub trailers_polled_first: bool,
     pub finished_q: Option<usize>,
     pub data_done: bool,
+    pub script_pc: usize,
 }
 
 impl BodyReader {
     pub fn new(name: String, ep: usize, tag: u32, rs: RecvStream, pol: ReadPol) -> BodyReader {
         let sid = rs.stream_id().as_u32();
-        BodyReader { name, ep, tag, sid, rs: Some(rs), pol, off: 0, held: 0, chunks: 0, phase: 0, blocked: None, waitq: None, trailers_polled_first: false, finished_q: None, data_done: false }
+        BodyReader { name, ep, tag, sid, rs: Some(rs), pol, off: 0, held: 0, chunks: 0, phase: 0, blocked: None, waitq: None, trailers_polled_first: false, finished_q: None, data_done: false, script_pc: 0 }
     }
 }
 
@@ -546,6 +555,54 @@ impl Task for BodyReader {
             if sim.reg.nq < k {
                 self.waitq = Some(k);
                 return TP::Pending;
+            }
+        }
+        if !self.pol.script.is_empty() {
+            // scripted mode: one call per op, never blocking on the library
+            loop {
+                if self.script_pc >= self.pol.script.len() {
+                    if self.rs.take().is_some() {
+                        api.ev("drop_recv", sid, tag, "ok", json!({}));
+                    }
+                    return TP::Done;
+                }
+                let op = self.pol.script[self.script_pc].clone();
+                match op {
+                    RecvOp::WaitQ { k } => {
+                        if sim.reg.nq < k {
+                            self.waitq = Some(k);
+                            return TP::Pending;
+                        }
+                    }
+                    RecvOp::Drop => {
+                        if self.rs.take().is_some() {
+                            api.ev("drop_recv", sid, tag, "ok", json!({}));
+                        }
+                    }
+                    RecvOp::Release { n } => {
+                        if let Some(rs) = self.rs.as_mut() {
+                            match rs.flow_control().release_capacity(n) {
+                                Ok(()) => api.ev("release", sid, tag, "ok", json!({"n": n})),
+                                Err(e) => api.ev("release", sid, tag, "err", json!({"n": n, "e": err_json(&e)})),
+                            }
+                        }
+                    }
+                    RecvOp::PollData => {
+                        if let Some(rs) = self.rs.as_mut() {
+                            match rs.poll_data(cx) {
+                                Poll::Pending => api.ev("poll_data", sid, tag, "pending", json!({})),
+                                Poll::Ready(None) => api.ev("poll_data", sid, tag, "none", json!({"eos": rs.is_end_stream()})),
+                                Poll::Ready(Some(Err(e))) => api.ev("poll_data", sid, tag, "err", json!({"e": err_json(&e)})),
+                                Poll::Ready(Some(Ok(b))) => {
+                                    let ok = intact(tag, self.off, &b);
+                                    api.ev("poll_data", sid, tag, "some", json!({"n": b.len(), "off": self.off, "intact": ok, "eos": rs.is_end_stream()}));
+                                    self.off += b.len() as u64;
+                                }
+                            }
+                        }
+                    }
+                }
+                self.script_pc += 1;
             }
         }
         if self.pol.idle && self.phase < 2 {
